@@ -28,6 +28,20 @@
 (* "req" variant - the design is sound on the whole abstract domain - and  *)
 (* prints for every case the class and BOTH predictions; the harness runs  *)
 (* the real code on concretisations and judges it against the statement.   *)
+(*                                                                         *)
+(* Three further dimensions (round 3):                                     *)
+(*  - WHERE the message is sent: the idpURL the caller hands to Make* is    *)
+(*    the first location of sp.IDPMetadata for the binding (what the        *)
+(*    one-step Make*Redirect* / Make*Post* functions and samlsp pass),      *)
+(*    another location of the same metadata, or a URL the metadata does     *)
+(*    not list, each with its own query string; and sp.IDPMetadata may be   *)
+(*    REPLACED between creation and rendering (variable md, action          *)
+(*    ReplaceMetadata).  The encoders write to msg.dest (variable target).  *)
+(*  - the configured signature-method STRING: one of the eight URIs, or a   *)
+(*    string that is not among them although it resembles one (padded with  *)
+(*    white space, other letter case, trailing slash / fragment), or an     *)
+(*    unrelated unknown string (cfg.method x cfg.mform).                    *)
+(*  - histories of renderings of one message value: SPEmitRenderHistory.    *)
 (***************************************************************************)
 EXTENDS Integers, Sequences, FiniteSets, TLC, Json
 
@@ -52,6 +66,9 @@ StringsUpTo(n) == UNION { [1..k -> Chars] : k \in 0..n }
 LengthTexts    == { <<r>> : r \in Runs }
 
 Queries  == {"none", "ab", "abc"}               \* endpoint query: none | a=b | a=b&c
+\* where the message is sent, relative to sp.IDPMetadata at creation: its first location for the binding,
+\* another location of the same metadata, a URL the metadata does not list
+Dests    == {"first", "second", "custom"}
 Kinds    == {"authn", "logoutreq", "logoutresp", "artifact"}
 Bindings == {"redirect", "post"}
 
@@ -59,6 +76,11 @@ RsaMethods == {"rsa-sha1", "rsa-sha256", "rsa-sha384", "rsa-sha512"}
 EcMethods  == {"ecdsa-sha1", "ecdsa-sha256", "ecdsa-sha384", "ecdsa-sha512"}
 Methods    == RsaMethods \cup EcMethods
 MethodCfgs == Methods \cup {"unknown", ""}      \* "" = signing not configured
+\* how the configured string relates to the URI cfg.method names: the URI itself, or a string that is
+\* NOT that URI although it resembles it (white space around it / a trailing newline, another letter
+\* case, a trailing slash or fragment).  Only "exact" strings are among the eight method URIs.
+MethodForms == {"exact", "padded", "case", "suffixed"}
+NearForms   == MethodForms \ {"exact"}
 RsaKeys == {"rsa1024", "rsa2048", "rsa3072", "rsa4096"}
 EcKeys  == {"ec256", "ec384", "ec521"}
 Keys    == RsaKeys \cup EcKeys
@@ -72,8 +94,10 @@ Blob(s)   == Tok("blob", s)
 AMP == Tok("amp", "")
 EQ  == Tok("eq", "")
 
-VARIABLES cfg,      \* [query, method, key, nidfmt, force, rac]
-          in,       \* [fam, kind, binding, relay, nameid]
+VARIABLES cfg,      \* [query, method, mform, key, nidfmt, force, rac]
+          in,       \* [fam, kind, binding, relay, nameid, dest, swap]
+          md,       \* sp.IDPMetadata now: the locations for the service and binding in use, in document order
+          target,   \* [Variants -> endpoint] the URL the encoder writes the message to
           pc,
           rnd,      \* position in the RandReader stream
           ids,      \* IDs issued so far: sequence of [kind, from, to]
@@ -84,13 +108,14 @@ VARIABLES cfg,      \* [query, method, key, nidfmt, force, rac]
           signed,   \* [Variants -> token sequence]  octets handed to SignString
           recv,     \* [Variants -> token sequence]  what reaches the receiver's query parser
           params    \* [Variants -> sequence of [n, v]] decoded by the standards parser
-vars == <<cfg, in, pc, rnd, ids, msg, outcome, sigform, wire, signed, recv, params>>
+vars == <<cfg, in, md, target, pc, rnd, ids, msg, outcome, sigform, wire, signed, recv, params>>
 
 ----------------------------------------------------------------------------
 (* input families *)
 
-BaseCfg == [query |-> "none", method |-> "", key |-> "rsa2048", nidfmt |-> "unset", force |-> "nil", rac |-> FALSE]
-In(f, k, b, rs, nid) == [fam |-> f, kind |-> k, binding |-> b, relay |-> rs, nameid |-> nid]
+BaseCfg == [query |-> "none", method |-> "", mform |-> "exact", key |-> "rsa2048", nidfmt |-> "unset", force |-> "nil", rac |-> FALSE]
+InAt(f, k, b, rs, nid, d, sw) == [fam |-> f, kind |-> k, binding |-> b, relay |-> rs, nameid |-> nid, dest |-> d, swap |-> sw]
+In(f, k, b, rs, nid) == InAt(f, k, b, rs, nid, "first", FALSE)
 NidFor(k) == IF k = "logoutreq" THEN <<"plain">> ELSE <<>>
 
 Texts(n) == StringsUpTo(n) \cup LengthTexts
@@ -133,16 +158,58 @@ FamSig(relays, queries) ==
         f \in NidFmts, fa \in Forces, r \in BOOLEAN, b \in Bindings :
       /\ cfg = [BaseCfg EXCEPT !.method = mk[1], !.key = mk[2], !.nidfmt = f, !.force = fa, !.rac = r]
       /\ in = In("sig", "authn", b, <<"plain">>, <<>>)
+\* WHERE the message is sent: every kind and binding made for the metadata's first location, another
+\* location of the same metadata or a URL outside the metadata (each with every endpoint query), rendered
+\* at once or after sp.IDPMetadata has been replaced ((first, no swap) is FamRelay's case)
+DestRelays == { <<>>, <<"plain">>, <<"amp", "eq">> }
+FamDest ==
+  \E d \in Dests, sw \in BOOLEAN, q \in Queries, m \in {"", "rsa-sha256"}, k \in Kinds \ {"artifact"}, b \in Bindings, rs \in DestRelays :
+      /\ ~(d = "first" /\ ~sw)
+      /\ cfg = [BaseCfg EXCEPT !.query = q, !.method = m]
+      /\ in = InAt("dest", k, b, rs, NidFor(k), d, sw)
+\* C13: the same for the signed octets "as they appear in the emitted URL" and the enveloped forms
+FamSigDest ==
+  \E d \in Dests, sw \in BOOLEAN, q \in Queries, mk \in {<<"rsa-sha256", "rsa2048">>, <<"ecdsa-sha384", "ec384">>},
+     k \in Kinds \ {"artifact"}, b \in Bindings, rs \in {<<>>, <<"amp", "eq">>} :
+      /\ ~(d = "first" /\ ~sw)
+      /\ cfg = [BaseCfg EXCEPT !.query = q, !.method = mk[1], !.key = mk[2]]
+      /\ in = InAt("sig", k, b, rs, NidFor(k), d, sw)
+\* C13: strings that are not among the eight URIs although they resemble one, x key x kind x binding
+FamSigNear(relays, queries) ==
+  \/ \E f \in NearForms, m \in Methods, ky \in Keys, k \in Kinds \ {"artifact"}, b \in Bindings, q \in queries, rs \in relays :
+      /\ cfg = [BaseCfg EXCEPT !.query = q, !.method = m, !.mform = f, !.key = ky]
+      /\ in = In("sig", k, b, rs, NidFor(k))
+  \/ \E f \in NearForms, m \in Methods, ky \in Keys :
+      /\ cfg = [BaseCfg EXCEPT !.method = m, !.mform = f, !.key = ky]
+      /\ in = In("sig", "artifact", "soap", <<>>, <<>>)
 \* ID freshness: arbitrary sequences of creations
 FamSeq == cfg = BaseCfg /\ in = In("seq", "seq", "none", <<>>, <<>>)
 
-Cases == CASE Family = "C12q" -> FamRelay(2) \/ FamNameID(2) \/ FamConfig \/ FamSeq
-           [] Family = "C12t" -> FamRelay(3) \/ FamNameID(3) \/ FamConfig \/ FamSeq
-           [] Family = "C13q" -> FamSig(SigRelaysQ, Queries)
-           [] Family = "C13t" -> FamSig(SigRelaysT, Queries)
+Cases == CASE Family = "C12q" -> FamRelay(2) \/ FamNameID(2) \/ FamConfig \/ FamDest \/ FamSeq
+           [] Family = "C12t" -> FamRelay(3) \/ FamNameID(3) \/ FamConfig \/ FamDest \/ FamSeq
+           [] Family = "C13q" -> FamSig(SigRelaysQ, Queries) \/ FamSigDest \/ FamSigNear({<<"plain">>}, {"none", "ab"})
+           [] Family = "C13t" -> FamSig(SigRelaysT, Queries) \/ FamSigDest \/ FamSigNear({<<>>, <<"plain">>, <<"amp", "eq">>}, Queries)
+
+\* the IdP's endpoints ---------------------------------------------------------------------------------
+\* an endpoint is [svc, at, query]: which service, which URL (scheme, host, path), which query string it carries.
+\* The URL the request is made for carries cfg.query; every OTHER location carries the query "other" (m=1),
+\* so that a message written to the wrong location is told apart by its path AND by its parameters.
+Svc == IF in.kind = "authn" THEN "sso" ELSE IF in.kind = "artifact" THEN "art" ELSE "slo"
+EP(at, q) == [svc |-> Svc, at |-> at, query |-> q]
+\* the idpURL handed to Make*
+Given == IF in.kind = "artifact" THEN [svc |-> "none", at |-> "none", query |-> "none"] ELSE EP(in.dest, cfg.query)
+\* sp.IDPMetadata when the message is created: two locations for the binding in use
+MdAtCreate == << IF in.dest = "first"  THEN EP("first", cfg.query)  ELSE EP("first", "other"),
+                 IF in.dest = "second" THEN EP("second", cfg.query) ELSE EP("second", "other") >>
+\* the metadata an application installs later (the IdP moved its endpoints)
+MdReplaced == << EP("moved", "other"), EP("moved2", "other") >>
+\* GetSSOBindingLocation / GetSLOBindingLocation :346 :372 - the first location with the binding
+FirstLocation(m) == m[1]
+NoTarget == [v \in Variants |-> [svc |-> "none", at |-> "none", query |-> "none"]]
 
 NoWire == [v \in Variants |-> <<>>]
 Init == /\ Cases
+        /\ md = MdAtCreate /\ target = NoTarget
         /\ pc = IF in.kind = "seq" THEN "seq" ELSE "create"
         /\ rnd = 0 /\ ids = <<>> /\ msg = [kind |-> "none"]
         /\ outcome = "none" /\ sigform = "none"
@@ -153,9 +220,11 @@ Init == /\ Cases
 
 MethodFamily(m) == IF m \in RsaMethods THEN "rsa" ELSE IF m \in EcMethods THEN "ecdsa" ELSE "unknown"
 KeyFamily(k)    == IF k \in RsaKeys THEN "rsa" ELSE "ecdsa"
-SigningContext(m, k) == IF MethodFamily(m) = "unknown" THEN "error"          \* default: invalid signing method
-                        ELSE IF MethodFamily(m) # KeyFamily(k) THEN "error"  \* requires a key of type ...
-                        ELSE "ok"
+\* the switch compares the configured STRING with the eight URIs: only the exact string of a URI selects its case
+SwitchCase(m, f) == IF f = "exact" THEN MethodFamily(m) ELSE "unknown"
+SigningContext(m, f, k) == IF SwitchCase(m, f) = "unknown" THEN "error"          \* default: invalid signing method
+                           ELSE IF SwitchCase(m, f) # KeyFamily(k) THEN "error"  \* requires a key of type ...
+                           ELSE "ok"
 Signing == cfg.method # ""
 \* where the code signs: enveloped at creation for everything but a redirect-bound AuthnRequest
 \* (:548 "We don't need to sign the XML document if the IDP uses HTTP-Redirect binding"),
@@ -174,13 +243,14 @@ Draw(k, from, n) == /\ from >= rnd
 Policy == CASE cfg.nidfmt = "unset" -> "transient"      \* :1612 back-compat default
             [] cfg.nidfmt = "unspecified" -> "absent"   \* empty Format = unspecified, attribute omitted
             [] OTHER -> cfg.nidfmt
-Endpoint == [svc |-> IF in.kind = "authn" THEN "sso" ELSE IF in.kind = "artifact" THEN "art" ELSE "slo", query |-> cfg.query]
+\* the one-step functions (:283 :655 :1415 :1455 :1529 :1569) pass the metadata's first location for the binding
+OneStepPossible == in.dest = "first" /\ ~in.swap
 
 Create ==
   /\ pc = "create"
   /\ Draw(in.kind, rnd, IdBytes)
   /\ msg' = [kind |-> in.kind, id |-> Issue(in.kind, rnd, IdBytes), issuer |-> "sp-entity",
-             dest |-> IF in.kind = "artifact" THEN [svc |-> "none", query |-> "none"] ELSE Endpoint,
+             dest |-> Given,                                  \* Destination: idpURL  :536 :1390 :1505
              acs |-> IF in.kind = "authn" THEN "sp-acs" ELSE "none",
              policy |-> IF in.kind = "authn" THEN Policy ELSE "none",
              nidformat |-> IF in.kind = "logoutreq" THEN Policy ELSE "none",
@@ -189,17 +259,25 @@ Create ==
              irt |-> IF in.kind = "logoutresp" THEN "given" ELSE "none",
              nameid |-> in.nameid]
   /\ pc' = "select"
-  /\ UNCHANGED <<cfg, in, outcome, sigform, wire, signed, recv, params>>
+  /\ UNCHANGED <<cfg, in, md, target, outcome, sigform, wire, signed, recv, params>>
 
 \* Sign{AuthnRequest,LogoutRequest,LogoutResponse,ArtifactResolve}: GetSigningContext then SignEnveloped;
 \* an error aborts Make* (nil message)
 SelectSigning ==
   /\ pc = "select"
-  /\ IF SignsEnveloped /\ SigningContext(cfg.method, cfg.key) = "error"
+  /\ IF SignsEnveloped /\ SigningContext(cfg.method, cfg.mform, cfg.key) = "error"
        THEN pc' = "done" /\ outcome' = "error" /\ sigform' = "none"
-       ELSE pc' = "serialize" /\ outcome' = outcome
+       ELSE pc' = (IF in.swap THEN "replace" ELSE "serialize") /\ outcome' = outcome
             /\ sigform' = IF SignsEnveloped THEN "enveloped" ELSE "none"
-  /\ UNCHANGED <<cfg, in, rnd, ids, msg, wire, signed, recv, params>>
+  /\ UNCHANGED <<cfg, in, md, target, rnd, ids, msg, wire, signed, recv, params>>
+
+\* between the two steps of the API the application assigns a new sp.IDPMetadata (metadata refresh);
+\* the message value it already holds is not touched
+ReplaceMetadata ==
+  /\ pc = "replace"
+  /\ md' = MdReplaced
+  /\ pc' = "serialize"
+  /\ UNCHANGED <<cfg, in, target, rnd, ids, msg, outcome, sigform, wire, signed, recv, params>>
 
 ----------------------------------------------------------------------------
 (* escaping functions *)
@@ -222,8 +300,10 @@ OwnNames == {"SAMLRequest", "SAMLResponse", "RelayState", "SigAlg", "Signature"}
 RawExisting(q) == CASE q = "none" -> <<>>
                     [] q = "ab"   -> <<Lit("a"), EQ, Lit("b")>>
                     [] q = "abc"  -> <<Lit("a"), EQ, Lit("b"), AMP, Lit("c")>>
+                    [] q = "other" -> <<Lit("m"), EQ, Lit("1")>>
 \* and what a receiver must still find in the emitted URL (decoded pairs)
 ExistingPairs(q) == CASE q = "none" -> <<>>
+                      [] q = "other" -> << [n |-> <<Lit("m")>>, v |-> <<Lit("1")>>] >>
                       [] q = "ab"   -> << [n |-> <<Lit("a")>>, v |-> <<Lit("b")>>] >>
                       [] q = "abc"  -> << [n |-> <<Lit("a")>>, v |-> <<Lit("b")>>], [n |-> <<Lit("c")>>, v |-> <<>>] >>
 
@@ -232,11 +312,11 @@ Serialize ==
   /\ pc = "serialize"
   /\ pc' = IF in.binding = "soap" THEN "done" ELSE "assemble"
   /\ outcome' = IF in.binding = "soap" THEN "ok" ELSE outcome
-  /\ UNCHANGED <<cfg, in, rnd, ids, msg, sigform, wire, signed, recv, params>>
+  /\ UNCHANGED <<cfg, in, md, target, rnd, ids, msg, sigform, wire, signed, recv, params>>
 
 \* AuthnRequest.Redirect :303-321 - query assembled by hand, "order matters for signing"
-HandQuery(D) ==
-  LET pre == RawExisting(cfg.query)
+HandQuery(D, tq) ==
+  LET pre == RawExisting(tq)
       sam == <<Lit("SAMLRequest"), EQ, Blob("req")>>
       q1  == IF pre = <<>> THEN sam ELSE pre \o <<AMP>> \o sam
       rs  == IF in.relay = <<>> THEN <<>>
@@ -246,25 +326,32 @@ HandQuery(D) ==
 
 \* LogoutRequest.Redirect :1421-1427 / LogoutResponse.Redirect :1535-1541 - url.Values: Set + Encode
 \* (keys sorted bytewise: RelayState < SAMLRequest < SAMLResponse < a < c; "c" re-encodes as "c=")
-ValuesQuery ==
+ValuesQuery(tq) ==
   LET rs  == IF in.relay = <<>> THEN <<>> ELSE <<Lit("RelayState"), EQ>> \o QEscape(in.relay) \o <<AMP>>
       sam == <<Lit(SAMLName), EQ, Blob("req")>>
-      ex  == CASE cfg.query = "none" -> <<>>
-               [] cfg.query = "ab"   -> <<AMP, Lit("a"), EQ, Lit("b")>>
-               [] cfg.query = "abc"  -> <<AMP, Lit("a"), EQ, Lit("b"), AMP, Lit("c"), EQ>>
+      ex  == CASE tq = "none" -> <<>>
+               [] tq = "ab"   -> <<AMP, Lit("a"), EQ, Lit("b")>>
+               [] tq = "abc"  -> <<AMP, Lit("a"), EQ, Lit("b"), AMP, Lit("c"), EQ>>
+               [] tq = "other" -> <<AMP, Lit("m"), EQ, Lit("1")>>
   IN rs \o sam \o ex
 
 \* Post() :656-689 :1444-1477 :1558-1591 - html/template form with two hidden inputs (RelayState always present)
 FormFields == <<Lit(SAMLName), EQ, Blob("req"), AMP, Lit("RelayState"), EQ>> \o HEscape(in.relay)
 
+\* every encoder writes to the message's OWN Destination - url.Parse(r.Destination) :304 :1438 :1552, form
+\* action {{.URL}} = r.Destination :684 :1484 :1598 - whatever sp.IDPMetadata (md) says by now
+WriteTo(D) == msg.dest
+
 Assemble ==
   /\ pc = "assemble"
-  /\ wire' = [v \in Variants |->
-                IF in.binding = "post" THEN FormFields
-                ELSE IF in.kind = "authn" THEN HandQuery(Dev(v))
-                ELSE ValuesQuery]
+  /\ LET tg == [v \in Variants |-> WriteTo(Dev(v))] IN
+       /\ target' = tg
+       /\ wire' = [v \in Variants |->
+                     IF in.binding = "post" THEN FormFields
+                     ELSE IF in.kind = "authn" THEN HandQuery(Dev(v), tg[v].query)
+                     ELSE ValuesQuery(tg[v].query)]
   /\ pc' = IF SignsDetached THEN "signquery" ELSE "transmit"
-  /\ UNCHANGED <<cfg, in, rnd, ids, msg, outcome, sigform, signed, recv, params>>
+  /\ UNCHANGED <<cfg, in, md, rnd, ids, msg, outcome, sigform, signed, recv, params>>
 
 \* the part of a query that belongs to the SAML binding: from the SAMLRequest name to its end
 FirstIdx(w, P(_)) == IF \E i \in DOMAIN w : P(w[i])
@@ -273,18 +360,21 @@ FirstIdx(w, P(_)) == IF \E i \in DOMAIN w : P(w[i])
 IsSAMLName(t) == t = Lit("SAMLRequest") \/ t = Lit("SAMLResponse")
 OwnPart(w) == LET k == FirstIdx(w, IsSAMLName) IN IF k = 0 THEN <<>> ELSE SubSeq(w, k, Len(w))
 
-\* :322-332  SigAlg appended, GetSigningContext, SignString(query), Signature appended
+\* :322-332  SigAlg appended, GetSigningContext, SignString(query), Signature appended.
+\* The SigAlg value is the configured STRING, escaped (:323 url.QueryEscape(sp.SignatureMethod)); the algorithm
+\* that signs is the one the signing context selected from it.
+AlgTok == Tok("alg", cfg.mform)
 SignQuery ==
   /\ pc = "signquery"
-  /\ IF SigningContext(cfg.method, cfg.key) = "error"
+  /\ IF SigningContext(cfg.method, cfg.mform, cfg.key) = "error"
        THEN /\ pc' = "done" /\ outcome' = "error" /\ wire' = NoWire
             /\ UNCHANGED <<signed, sigform>>
-       ELSE LET withAlg == [v \in Variants |-> wire[v] \o <<AMP, Lit("SigAlg"), EQ, Blob("sigalg")>>]
+       ELSE LET withAlg == [v \in Variants |-> wire[v] \o <<AMP, Lit("SigAlg"), EQ, AlgTok>>]
             IN /\ signed' = [v \in Variants |->
                                IF "SignsExistingQuery" \in Dev(v) THEN withAlg[v] ELSE OwnPart(withAlg[v])]
                /\ wire' = [v \in Variants |-> withAlg[v] \o <<AMP, Lit("Signature"), EQ, Blob("sig")>>]
                /\ sigform' = "detached" /\ pc' = "transmit" /\ outcome' = outcome
-  /\ UNCHANGED <<cfg, in, rnd, ids, msg, recv, params>>
+  /\ UNCHANGED <<cfg, in, md, target, rnd, ids, msg, recv, params>>
 
 ----------------------------------------------------------------------------
 (* the receiver: a standards-conforming user agent and query / form parser *)
@@ -301,7 +391,7 @@ Transmit ==
   /\ pc = "transmit"
   /\ recv' = [v \in Variants |-> IF in.binding = "redirect" THEN CutAt(wire[v], IsHash) ELSE wire[v]]
   /\ pc' = "parse"
-  /\ UNCHANGED <<cfg, in, rnd, ids, msg, outcome, sigform, wire, signed, params>>
+  /\ UNCHANGED <<cfg, in, md, target, rnd, ids, msg, outcome, sigform, wire, signed, params>>
 
 RECURSIVE SplitAmp(_)
 SplitAmp(w) == LET k == FirstIdx(w, IsAmp)
@@ -335,7 +425,7 @@ Parse ==
   /\ pc = "parse"
   /\ params' = [v \in Variants |-> IF in.binding = "post" THEN FormPairs(recv[v]) ELSE QueryPairs(recv[v])]
   /\ pc' = "done" /\ outcome' = "ok"
-  /\ UNCHANGED <<cfg, in, rnd, ids, msg, sigform, wire, signed, recv>>
+  /\ UNCHANGED <<cfg, in, md, target, rnd, ids, msg, sigform, wire, signed, recv>>
 
 \* net/url's parser (used by this library's IdP) additionally drops a pair that contains a raw ';'
 \* or a broken escape - named difference GoQueryParser; it only matters for unescaped relay states
@@ -350,9 +440,9 @@ SeqCreate(k, from, n) ==
   /\ pc = "seq"
   /\ Len(ids) < MaxSeq
   /\ Draw(k, from, n)
-  /\ UNCHANGED <<cfg, in, pc, msg, outcome, sigform, wire, signed, recv, params>>
+  /\ UNCHANGED <<cfg, in, md, target, pc, msg, outcome, sigform, wire, signed, recv, params>>
 
-Next == \/ Create \/ SelectSigning \/ Serialize \/ Assemble \/ SignQuery \/ Transmit \/ Parse
+Next == \/ Create \/ SelectSigning \/ ReplaceMetadata \/ Serialize \/ Assemble \/ SignQuery \/ Transmit \/ Parse
         \/ \E k \in Kinds : SeqCreate(k, rnd, IdBytes)
 Spec == Init /\ [][Next]_vars
 
@@ -383,13 +473,17 @@ Flags(ps, w, sg) ==
     relayRT    |-> IF Count(ps, "RelayState") = 1 THEN ValueOf(ps, "RelayState") = Expect(in.relay)
                    ELSE Count(ps, "RelayState") = 0 /\ in.relay = <<>>,
     existing   |-> in.binding = "post" \/ Foreign(ps) = ExistingPairs(cfg.query),
+    \* SigAlg names one of the eight URIs (the exact string of one)
     sigParams  |-> IF sigform = "detached"
                      THEN Count(ps, "SigAlg") = 1 /\ Count(ps, "Signature") = 1
-                          /\ ValueOf(ps, "SigAlg") = <<Blob("sigalg")>> /\ ValueOf(ps, "Signature") = <<Blob("sig")>>
+                          /\ ValueOf(ps, "SigAlg") = <<Tok("alg", "exact")>> /\ ValueOf(ps, "Signature") = <<Blob("sig")>>
                      ELSE Count(ps, "SigAlg") = 0 /\ Count(ps, "Signature") = 0,
     signedExact |-> SignedExact(w, sg) ]
 
-F(v)   == Flags(params[v], wire[v], signed[v])
+\* where the user agent is sent (scheme, host, path of the URL / form action) is the idpURL given to Make*
+Delivered(v) == [svc |-> target[v].svc, at |-> target[v].at] = [svc |-> Given.svc, at |-> Given.at]
+F(v)   == [Flags(params[v], wire[v], signed[v]) EXCEPT !.existing = @ /\ (in.binding = "redirect" \/ target[v].query = cfg.query)]
+            @@ [delivered |-> Delivered(v)]
 \* the same emission as this library's IdP reads it (AuthnRequest over redirect only)
 FGo(v) == LET ps == GoQueryPairs(recv[v]) IN
           [ nSAML |-> Count(ps, "SAMLRequest"),
@@ -397,6 +491,9 @@ FGo(v) == LET ps == GoQueryPairs(recv[v]) IN
             relayRT |-> IF Count(ps, "RelayState") >= 1 THEN ValueOf(ps, "RelayState") = Expect(in.relay)
                         ELSE in.relay = <<>> ]
 IdpReads == in.kind = "authn" /\ in.binding = "redirect"
+\* the IdP that serves the URL the user agent is sent to compares the message's Destination with its own
+\* SSO URL, query string included (identity_provider.go:433); AuthnRequests of both bindings
+IdpDestOK(v) == msg.dest = target[v]
 
 \* C12 ------------------------------------------------------------------------
 ExactlyOneSAMLParam    == Wired => F("req").nSAML = 1 /\ F("req").samlNamed /\ F("req").payload
@@ -404,10 +501,14 @@ AtMostOneRelayState    == Wired => F("req").nRelay <= 1
 RelayStateRoundTrips   == Wired => F("req").relayRT
 ExistingQueryPreserved == Wired => F("req").existing
 IdpRecovers            == Wired /\ IdpReads => FGo("req").nSAML = 1 /\ FGo("req").payload /\ FGo("req").relayRT
+\* the wire form and the message agree on where the message goes, and that is where the caller sent it:
+\* for every idpURL (in the metadata or not, with or without a query) and whatever sp.IDPMetadata is by now
+DeliveredToDestination == Wired => F("req").delivered /\ target["req"] = Given /\ msg.dest = Given
+IdpAcceptsDestination  == Wired /\ in.kind = "authn" => IdpDestOK("req")
 \* the decoded message carries the configured values (symbolic: Serialize is the identity on msg)
 MessageIntact == Done /\ outcome = "ok" =>
                    /\ msg.kind = in.kind /\ msg.issuer = "sp-entity" /\ msg.id = ids[Len(ids)]
-                   /\ (in.kind # "artifact" => msg.dest = Endpoint)
+                   /\ (in.kind # "artifact" => msg.dest = Given)
                    /\ (in.kind = "authn" => msg.acs = "sp-acs" /\ msg.policy = Policy /\ msg.force = cfg.force /\ msg.rac = cfg.rac)
                    /\ (in.kind = "logoutreq" => msg.nameid = in.nameid /\ msg.nidformat = Policy)
                    /\ (in.kind = "logoutresp" => msg.irt = "given")
@@ -421,15 +522,24 @@ IDsFresh == [][ ids' # ids =>
                        /\ \A j \in DOMAIN ids : [from |-> ids[j].from, to |-> ids[j].to] # [from |-> new.from, to |-> new.to] ]_vars
 
 \* C13 ------------------------------------------------------------------------
-MustRefuse == Signing /\ (MethodFamily(cfg.method) = "unknown" \/ MethodFamily(cfg.method) # KeyFamily(cfg.key))
+\* "unknown" = the configured string is not one of the eight URIs - whatever it resembles
+AmongEight == cfg.method \in Methods /\ cfg.mform = "exact"
+MustRefuse == Signing /\ (~AmongEight \/ MethodFamily(cfg.method) # KeyFamily(cfg.key))
 MustSign   == Signing /\ ~MustRefuse
+\* a string that a tolerant reader would take for one of the eight: refusing it is REQUIRED; the harm the
+\* statement names is "an unsigned or unverifiable message", so an implementation that normalises the string
+\* consistently (the message verifies and names one of the eight URIs) is reported as drift, anything else
+\* that is not an error as a violation
+NearMiss   == Signing /\ cfg.method \in Methods /\ cfg.mform # "exact"
 RequiredForm == IF in.kind = "authn" /\ in.binding = "redirect" THEN "detached" ELSE "enveloped"
 
 RefusesMismatch  == Done /\ MustRefuse => outcome = "error" /\ wire["req"] = <<>> /\ sigform = "none"
 CarriesSignature == Done /\ MustSign => outcome = "ok" /\ sigform = RequiredForm
 UnsignedWhenOff  == Done /\ ~Signing => outcome = "ok" /\ sigform = "none"
 SignedOctetsExact == Wired => F("req").signedExact /\ F("req").sigParams
-SigningTableTotal == \A m \in MethodCfgs \ {""}, k \in Keys : SigningContext(m, k) \in {"ok", "error"}
+SigningTableTotal == \A m \in MethodCfgs \ {""}, f \in MethodForms, k \in Keys : SigningContext(m, f, k) \in {"ok", "error"}
+\* model consistency: the one-step functions are the two-step API called with the metadata's first location
+OneStepIsFirstLocation == OneStepPossible /\ in.kind \in Kinds \ {"artifact"} => Given = FirstLocation(MdAtCreate) /\ md = MdAtCreate
 
 \* model consistency: the pinned variant differs from the required one only where a named deviation applies
 NeedsEscape == \E i \in DOMAIN in.relay : ~IsPlain(in.relay[i])
@@ -446,10 +556,12 @@ Class == IF in.fam = "sig"
 (* vector emission *)
 Pred(v) == IF outcome = "ok" /\ in.binding \in Bindings
              THEN [outcome |-> outcome, sigform |-> sigform, flags |-> F(v),
-                   idp |-> IF IdpReads THEN FGo(v) ELSE [nSAML |-> 1, payload |-> TRUE, relayRT |-> TRUE]]
+                   idp |-> (IF IdpReads THEN FGo(v) ELSE [nSAML |-> 1, payload |-> TRUE, relayRT |-> TRUE])
+                           @@ [destOK |-> IdpDestOK(v)]]
              ELSE [outcome |-> outcome, sigform |-> sigform]
 Emit == Done => PrintT(<<"VEC", ToJson([prop |-> Family, cfg |-> cfg, in |-> in, class |-> Class,
                                          required |-> [form |-> IF Signing THEN RequiredForm ELSE "none",
-                                                       policy |-> Policy],
+                                                       policy |-> Policy, nearmiss |-> NearMiss,
+                                                       onestep |-> OneStepPossible],
                                          pred |-> [req |-> Pred("req"), pin |-> Pred("pin")]])>>)
 =============================================================================
